@@ -69,14 +69,14 @@ func (c *Cache[K, D]) LoadOrStore(key K, e *Element[D]) (actual *Element[D], loa
 }
 
 func (c *Cache[K, D]) Load(key K) (actual *Element[D]) {
-	actual, loaded := c.Map.Load(key)
-	if !loaded {
-		return nil
-	}
-	verifhook.Yield("cache.Load.beforeExpiryTest", 0)
-	if actual.IsExpired(time.Now()) {
-		return nil
-	}
+	// the element that is in the map is tested, at the moment it is looked up: tested later, it may have been
+	// replaced by a valid one and expired since - Load would report a key absent that never was
+	c.Map.LoadWithFunc(key, func(value *Element[D]) *Element[D] {
+		if !value.IsExpired(time.Now()) {
+			actual = value
+		}
+		return value
+	})
 	return actual
 }
 
